@@ -113,12 +113,12 @@ CLAIMS["C12"] = proof(
     "guard is alive or a writer/upgrader is announced; C12_try_read_fails — then try_read returns None; C12_reader_blocked — then every poll of every read() future returns Pending (whatever its cached state, notified or not). The bit is "
     "cleared only by write_unlock, the downgrades of a write guard and the cancellation of the announced writer (site lists pinned by Tie_Raw/Tie_RwFutures); the announced writer completes when the last reader leaves (C06 (d)). Schedule half not proved. " + CORR, NOTE)
 
-CLAIMS["C17"] = dict(category="translation_validation",
-    text="Decided on the implementation by the harness monitor (at every settle point the executor re-polls every woken future; more than 3*pending+3 polls is a violation; a hang is caught by the watchdog and reported with the history) "
-         "and by the correspondence (every wake-up list equals the model's). PARTIAL theorems (Properties/C17.v): for every history of each of the five machines no poll exhausts its loop fuel or takes an unreachable branch "
-         "(C17_*_polls_terminate_partial) — a single poll performs a bounded number of iterations and cannot spin. The bound on the number of polls needed to settle is NOT proved: it needs the converse ownership invariant "
-         "(woken pending future => its entry is notified, resting on waker uniqueness) and a potential function; see DESIGN.md §9. " + CORR,
-    note="trusts the harness, the settle monitor and the model's faithfulness as far as the histories exercise it; " + NOTE,
-    technique="runtime monitor on the crate + differential execution against the Coq model; partial Coq theorems (per-poll termination)")
+CLAIMS["C17"] = proof(
+    "History half proved for all five primitives: C17_{semaphore,mutex,rwlock,oncecell,barrier}_settle — from every reachable state (after any history), ANY sequence of settle polls (each re-polls, with any waker, a future that is "
+    "pending and flagged woken; in any order, for as long as there is one) has at most 3p+2l (Semaphore), 5p+2l (Mutex, RwLock), 4p+5l (OnceCell), 4p+2l (Barrier) polls, p = pending futures, l <= p = registered listener entries: "
+    "while nothing is released, acquired, started or cancelled, woken futures do not keep waking themselves or each other. Proof by a potential (#pending flagged woken + 2 #notified entries + 3 #pending [+ #not-yet-starved (inner-)mutex "
+    "waiters; + 3 #entries until the OnceCell is initialised]) that strictly decreases at every settle poll; the wake-up pass flags at most one pending future per waker called because wakers identify their future (Settle.v). "
+    "C17_*_polls_terminate — no poll exhausts its loop fuel or takes an unreachable branch. The code proved is the repaired one (F3). Threads / blocking forms: not proved. " + CORR + "; the harness additionally monitors the settle "
+    "bound on the implementation (<= 3*pending+3 polls per settle point) and a watchdog reports hangs with the history.", NOTE)
 
 NOT_APPLICABLE = []
